@@ -354,7 +354,7 @@ INFO = {
     'functions': ['db.shelve.util.construct', 'dissect', 'subset', 'append', 'indexed', 'prime_keys', 'db.shelve.state.DBI.open/close', 'db.shelve.add/next/remove/reset/trace/targets', 'db.tools.worm.consume',
                   'db.shelve.model.Interface._update'],
     'bounds': {
-        'quick': 'histories start from an empty catalogue and from a warm one (12 algorithms registered, so that catalogue ids 1 and 10.. coexist); names: all strings of <=3 characters (round trip, CrossHair); selection lemma (AST->SMT): all pairs of names of 1..6 characters, parents from {0,1,3,10,11}, versions none/1.1.0/1.10.2; histories of <=3 operations from 24 kinds (incl. the worm tool with run id 0, a run id, a target)',
+        'quick': 'histories start from an empty catalogue and from a warm one (12 algorithms registered, so that catalogue ids 1 and 10.. coexist); names: all strings of <=3 characters (round trip, CrossHair); selection lemma (AST->SMT): all pairs of names of 1..6 characters, parents from {0,1,3,10,11}, versions none/1.1.0/1.10.2; histories of <=3 operations from 24 kinds (incl. the worm tool with run id 0, a run id, a target); directed family: the addressed algorithm stored under two versions (update, bump, update), then 2 free operations',
         'thorough': 'round trip: names <=4 characters; selection lemma: names of 1..12 characters; histories of <=4 operations',
     },
     'assumptions': ['names contain none of the reserved separator characters ":" and "_" (compliance rules forbid "." only; the separators are DAWGIE-internal)',
@@ -387,6 +387,17 @@ def obligations(tier):
         fr = [f'e{i}' for i in range(1, k)]
         out.append(ob.make(f'warm-k{k}-{first}', 'hist', 'vp.harness.c08:hist_body', ', '.join(f'{v}: int' for v in fr), [' and '.join(f'0 <= {v} < {n}' for v in fr)],
                            f"{{'k': {k}, 'sel': [{first}, {', '.join(fr)}], 'warm_start': True}}", timeout=900 if tier == 'quick' else 3000))
+    # directed family: the addressed algorithm lives in the catalogue under two versions (stored, bumped,
+    # stored again: name-addressed operations then have several parents to cover), then free events
+    evs = events()
+    fr = ['f0', 'f1'] if tier == 'quick' else ['f0', 'f1', 'f2']
+    for bump in ('alg', 'sv'):
+        for again in (0, 2):  # the same run again / a later run
+            pref = [evs.index(('U', 0, 0)), evs.index(('B', bump)), evs.index(('U', 0, again))]
+            for ws in (False, True):
+                out.append(ob.make(f'twoversions-{bump}-{again}-{"warm" if ws else "cold"}', 'hist', 'vp.harness.c08:hist_body', ', '.join(f'{v}: int' for v in fr),
+                                   [' and '.join(f'0 <= {v} < {n}' for v in fr)],
+                                   f"{{'k': {len(pref) + len(fr)}, 'sel': [{', '.join(map(str, pref))}, {', '.join(fr)}], 'warm_start': {ws}}}", timeout=900 if tier == 'quick' else 3000))
     allv = [f'e{i}' for i in range(k)]
     out.append(ob.make('hist', 'hist', 'vp.harness.c08:hist_body', ', '.join(f'{v}: int' for v in allv), [' and '.join(f'0 <= {v} < {n}' for v in allv)],
                        f"{{'k': {k}, 'sel': [{', '.join(allv)}]}}", timeout=300, twin=True))
